@@ -781,7 +781,7 @@ func init() {
 		Explain: "Writer/reader agreement of the pbcmpl frame format (DESIGN.md 5/C06), decided from types, constants and SSA: header layout and size, one endian and one fixedSize object on both sides, declared body size = len of the data written second, header written from that header, exact read lengths (one frame per call), byte accounting, Size = HeaderSize + proto.Size, version defaulting/guard/copy/strip. A disagreement in any of these breaks the round trip for some message; protobuf's own encode/decode equality is trusted.",
 		NotDec:  []string{"protobuf encode/decode equality (library)", "independence from reader chunking is delegated to io.ReadFull/io.CopyN contracts"},
 		Trusted: []string{"go/ssa + go/types sizes", "encoding/binary.Read/Write/Size are mutually inverse for fixed-size structs", "io.ReadFull/io.CopyN read exactly n bytes or fail"},
-		Quick:   []Config{cfgDefault}, Thorough: []Config{cfgDefault, cfg386, cfgArm64},
+		Quick:   []Config{cfgDefault, cfg386}, Thorough: []Config{cfgDefault, cfg386, cfgArm64},
 		Run: runC06,
 	})
 }
